@@ -227,6 +227,17 @@ ADDENDA4 = {
     "C13": "Methods store nothing on the instance besides source and cache; the infinite tag is only set on unbounded generators.",
     "C18": "Emitted text is also compared token-wise with the plain payload's (a literal closed early shows as extra tokens even when the remainder does not parse).",
 }
+ADDENDA4B = {
+    "C03": "Token kinds are distinct enum values; the lexer is stateless (probes repeated in another order) and no pipeline function has a mutable default argument.",
+    "C06": "Calls between transpile functions pass dict_compress on.",
+    "C07": "Each operator's table entry pushes exactly its function applied to the two popped operands; operands are not rebound before the number arm.",
+    "C08": "Documented-vectorising elements claim no list-kinded overload beyond the documented ones; number arms of the frozen vectorising functions recognise every number class.",
+    "C14": "next() is applied to iter(...) results, not to the list itself; templates and pop/wrapify do not consume popped values; x[-n:] needs n known positive.",
+    "C15": "Compressed literals are emitted identically with dictionary compression on and off; the to_base model re-runs small bases after the sweep.",
+    "C20": "The code page agrees position by position with its copies in static/main.js and documents/knowledge/yaml_to_js.py.",
+}
+for _k, _v in ADDENDA4B.items():
+    ADDENDA4[_k] = (ADDENDA4.get(_k, "") + " " + _v).strip()
 for _k, _v in ADDENDA4.items():
     ADDENDA[_k] = (ADDENDA.get(_k, "") + " " + _v).strip()
 for _k, _v in ADDENDA.items():
